@@ -336,7 +336,16 @@ def run_op(op, gb, X):
                 if name == "info": return ("ok", (len(target), target.ngroups, [str(x) for x in target.result_index.tolist()], [str(x) for x in target.result_index.names])), nxt
                 return ("ok", getattr(target, ATTR[name])), nxt
             meth, fa, fk = M[name]
-            if form == "cls": return ("ok", getattr(GroupBy, meth)(X.keys(), *fa(X), **fk(X))), nxt
+            if form == "cls":
+                # the class-level form with the caller's OWN key array: callers keep one key buffer and update it in place between calls, so the call is made twice on
+                # the same array object - first holding other keys (result ignored), then refilled in place with these keys: nothing may be remembered per key OBJECT
+                k = X.keys()
+                if isinstance(k, np.ndarray) and k.dtype.kind in "fi" and len(k) >= 2:
+                    want = k.copy(); k[:] = want[::-1]
+                    try: getattr(GroupBy, meth)(k, *fa(X), **fk(X))
+                    except Exception: pass
+                    k[:] = want
+                return ("ok", getattr(GroupBy, meth)(k, *fa(X), **fk(X))), nxt
             return ("ok", getattr(target, meth)(*fa(X), **fk(X))), nxt
     except Exception as ex:
         return ("exc", type(ex).__name__, str(ex)[:120]), nxt
